@@ -165,6 +165,14 @@ MIX_FIXED = [
     ('i8', 'nrst', 'sat', 7, 0, 'i32'), ('i16', 'nrst', 'thr', 15, 2, 'u8'),
 ]
 GN_DIGITS = [1, 2, 5, 8, 16, 31, 32, 33, 63, 64, 65, 100, 127, 128, 129, 160, 192, 200, 255, 256]
+# (narrowest 1, narrowest 2, mode, tag, d1, e1, d2, e2): operands of two narrowest types, in every run: (unsigned, signed) and
+# (signed, unsigned) pairs of every width, every overflow tag, equal and different exponents
+GN2_FIXED = [
+    ('u32', 'i32', 'nrst', 'thr', 8, 0, 4, 0), ('u32', 'i32', 'tpi', 'sat', 8, -2, 4, -2), ('i32', 'u32', 'nrst', 'thr', 8, 0, 4, 0),
+    ('u32', 'i32', 'ninf', 'trp', 32, 0, 16, -3), ('i32', 'u32', 'nat', 'sat', 20, -4, 32, 0), ('u8', 'i8', 'nrst', 'sat', 8, 0, 7, 0),
+    ('i8', 'u8', 'tpi', 'thr', 5, 1, 8, 0), ('u16', 'i16', 'nrst', 'trp', 16, 0, 12, 0), ('i16', 'u16', 'ninf', 'sat', 12, -2, 6, 0),
+    ('u32', 'i32', 'nrst', 'thr', 64, 0, 40, 0), ('i32', 'u32', 'nrst', 'sat', 3, 0, 40, 2), ('u8', 'i8', 'nat', 'thr', 4, 0, 31, 0),
+]
 
 
 def typed_grid(tier, seed):
@@ -198,11 +206,27 @@ def typed_grid(tier, seed):
              rnd.choice(list(BT)))
         if c not in mix:
             mix.append(c)
-    return gn, mix
+    gn2 = list(GN2_FIXED)
+    n = len(gn2) + (4 if tier == 'quick' else 30)
+    while len(gn2) < n:
+        # one operand unsigned, the other signed (either order), of one width: narrowest types of different widths have no
+        # common elastic type (differences and comparisons do not instantiate)
+        w = rnd.choice(['8', '16', '32', '32'])
+        n1, n2 = ('u' + w, 'i' + w) if rnd.randrange(2) else ('i' + w, 'u' + w)
+        d1, d2 = rnd.choice([1, 3, 4, 7, 8, 12, 16, 24, 31, 32, 40, 63, 64]), rnd.choice([1, 2, 4, 5, 8, 15, 16, 20, 31, 32, 48, 64])
+        e1, e2 = rnd.choice([0, 0, -3, 2, -8]), rnd.choice([0, 0, -2, 1, 5])
+        if rnd.randrange(3) == 0:
+            e2 = e1
+        if abs(e1 - e2) > 12 or d1 + d2 + abs(e1 - e2) > 120:
+            continue
+        c = (n1, n2, rnd.choice(rts), rnd.choice(ots), d1, e1, d2, e2)
+        if c not in gn2:
+            gn2.append(c)
+    return gn, mix, gn2
 
 
 def typed_tus(tier, seed):
-    gn, mix = typed_grid(tier, seed)
+    gn, mix, gn2 = typed_grid(tier, seed)
     res = []
 
     def tu(name, lines, idx, comp):
@@ -219,6 +243,11 @@ def typed_tus(tier, seed):
     for i in range(0, len(mix), per):
         lines = ['  mixed<%s, %s, %s, %d, %d, %s>(rng);\n' % (RT[r], OT[o], NW[nw], d, e, BT[bt]) for (nw, r, o, d, e, bt) in mix[i:i + per]]
         tu('C11_mixed_%d' % (i // per), lines, 300 + i, 'clang++' if (tier == 'thorough' and (i // per) % 3 == 1) else 'g++')
+    per = 2
+    for i in range(0, len(gn2), per):
+        lines = ['  gn2<%s, %s, %s, %s, %d, %d, %d, %d>(rng);\n' % (RT[r], OT[o], NW[n1], NW[n2], d1, e1, d2, e2)
+                 for (n1, n2, r, o, d1, e1, d2, e2) in gn2[i:i + per]]
+        tu('C11_typed2_%d' % (i // per), lines, 600 + i, 'clang++' if (tier == 'thorough' and (i // per) % 3 == 1) else 'g++')
     return res
 
 
@@ -236,4 +265,9 @@ RULE = ("per compiled (rounding tag, overflow tag, three (digits, exponent) form
         "+ - * /, six comparisons, unary minus, conversion, histories (mul_add, sub_div_cvt, mul_div, mul_sub, mul_gt, mul_cvt, sub_cvt) on the "
         "boundary lattice of the declared range (non-negative under an unsigned narrowest type) + seeded random values; static (x) built-in "
         "operands (i8 .. u64, lattice of the built-in type incl. negative values and the limits) on either side of + - * / and the six "
-        "comparisons, bare static_integer and static_number with exponents of either sign, against the by-value oracle")
+        "comparisons, bare static_integer and static_number with exponents of either sign, against the by-value oracle; the remainder "
+        "`%` on every kind of line (int narrowest, typed, multi-word, static (x) built-in on either side): exact remainder of the truncating "
+        "division at the dividend's exponent; operands of two narrowest types (tbin2 / tcmp2 / tasg2): (unsigned, signed) and (signed, "
+        "unsigned) pairs of 8, 16 and 32 bits in every run, + - * / %, the six comparisons and the compound assignments "
+        "+= -= *= /= %= (also with a built-in right operand: mixa), negative signed values against unsigned operands, small divisors "
+        "of either sign")
